@@ -16,6 +16,8 @@ FEED_CATS = DISPLAY_CATS + ('convert-from-unit', 'qstr', 'storage-label', 'add-u
 
 
 def run(ctx):
+    from .configtime import derived_values as _derived
+    _derived(ctx, 'C19.R1', ('Container', 'Recipe', 'RecipeStep', 'Unit', 'Plate', 'PlateSlicer'))
     stated_amounts_before_mixing(ctx, 'C19.R3')
     from .configtime import late_binding_closures as _late
     _late(ctx, 'C19.R2', classes=('Recipe', 'RecipeStep', 'Container', 'PlateSlicer'))
